@@ -121,6 +121,10 @@ pub struct Client<S, T> {
 
     /// Buffered extended protocol data
     extended_protocol_data_buffer: VecDeque<ExtendedProtocolData>,
+
+    /// Client-given names of the named Parse messages in `extended_protocol_data_buffer`,
+    /// in order, so that Parse and Close take effect in message order at Sync.
+    buffered_parse_names: VecDeque<String>,
 }
 
 /// Client entrypoint.
@@ -793,6 +797,7 @@ where
             prepared_statements_enabled,
             prepared_statements: HashMap::new(),
             extended_protocol_data_buffer: VecDeque::new(),
+            buffered_parse_names: VecDeque::new(),
         })
     }
 
@@ -831,6 +836,7 @@ where
             prepared_statements_enabled: false,
             prepared_statements: HashMap::new(),
             extended_protocol_data_buffer: VecDeque::new(),
+            buffered_parse_names: VecDeque::new(),
         })
     }
 
@@ -1415,7 +1421,16 @@ where
                                 ExtendedProtocolData::Parse { data, metadata } => {
                                     debug!("Have parse in extended buffer");
                                     let (parse, hash) = match metadata {
-                                        Some(metadata) => metadata,
+                                        Some(metadata) => {
+                                            // The name was registered when the Parse was received; an
+                                            // earlier Close of the same name in this batch has just
+                                            // removed it again, so register it in message order here.
+                                            if let Some(name) = self.buffered_parse_names.pop_front() {
+                                                self.prepared_statements
+                                                    .insert(name, (metadata.0.clone(), metadata.1));
+                                            }
+                                            metadata
+                                        }
                                         None => {
                                             let first_char_in_name = *data.get(5).unwrap_or(&0);
                                             if first_char_in_name != 0 {
@@ -1853,7 +1868,8 @@ where
         );
 
         self.prepared_statements
-            .insert(client_given_name, (new_parse.clone(), hash));
+            .insert(client_given_name.clone(), (new_parse.clone(), hash));
+        self.buffered_parse_names.push_back(client_given_name);
 
         self.extended_protocol_data_buffer
             .push_back(ExtendedProtocolData::create_new_parse(
@@ -1980,6 +1996,7 @@ where
     fn reset_buffered_state(&mut self) {
         self.buffer.clear();
         self.extended_protocol_data_buffer.clear();
+        self.buffered_parse_names.clear();
         self.response_message_queue_buffer.clear();
     }
 
